@@ -563,15 +563,30 @@ def run_impl(ops, raw=False):
                 kk, i, j, o = op[1], op[2], op[3], op[4]
                 a, b = sets[i], sets[j]
                 before = (show_set(a), show_set(b))
-                if o == 'or':
-                    r = a | b
-                elif o == 'and':
-                    r = a & b
-                elif o == 'sub':
-                    r = a - b
+                if kk == i and (len(before[0]) + len(before[1])) % 2:
+                    # the augmented spelling `a op= b` (also `a op= a`): Python falls back to `a = a op b` when
+                    # the class has no in-place operator; whatever the class does, the name ends up bound to the
+                    # set-theoretic result and the right operand (when it is another object) is unchanged
+                    r = a
+                    if o == 'or':
+                        r |= b
+                    elif o == 'and':
+                        r &= b
+                    elif o == 'sub':
+                        r -= b
+                    else:
+                        r ^= b
+                    extra['operands_unchanged'] = (j == i) or show_set(b) == before[1]
                 else:
-                    r = a ^ b
-                extra['operands_unchanged'] = (show_set(a), show_set(b)) == before and r is not a and r is not b
+                    if o == 'or':
+                        r = a | b
+                    elif o == 'and':
+                        r = a & b
+                    elif o == 'sub':
+                        r = a - b
+                    else:
+                        r = a ^ b
+                    extra['operands_unchanged'] = (show_set(a), show_set(b)) == before and r is not a and r is not b
                 sets[kk] = r
                 touched = kk
             elif k == 'q':
